@@ -382,7 +382,8 @@ class C08(Check):
                     "listener wiring (handler-name parsing, autoBindEvents prefix rule) is modelled and compared but carries no theorem of its own beyond waiter_once for the declaring waiter"]
     assumptions = ["waiter callbacks are pairwise distinct objects (entries of _waiters are compared with ==; equal entries would be interchangeable)",
                    "no listener of ComponentRegistered re-enters the core",
-                   "goUp() is called at most once per history (boot.py:526 is the only caller)",
+                   "goUp() is called at most once per history (boot.py:526 is the only caller; translate() re-checks this by ast on every run)",
+                   "quit() is never called from the scheduler's own thread in the harness (that path spawns a thread exactly like quit() during start-up, which is exercised)",
                    "dependencies are given as str, set, list, tuple or another indexable sequence; any other object counts as one (never registered) name; after repair D30 an empty list/tuple means no dependencies",
                    "liveness statements (fires exactly once, immediately; Down follows GoingDown) are about operations that return: user code that recurses for ever never returns in Python either",
                    "a component name is never re-bound to a different object inside one case (wiring is probed on the registered object)"]
